@@ -138,6 +138,34 @@ Definition wf_value (v : bvalue) : Prop :=
   (if has_strs (bv_kind v) then forallb nul_free (bv_strs v) = true /\ u64 (N.of_nat (length (sl_flat (bv_strs v))))
    else bv_strs v = []).
 
+(* ---------- BuildValue objects that are re-used (move constructor, move assignment, explicit copy constructor) ----------
+   An object in memory has the same four fields as [bvalue], but NOT normalised: `operator=(BuildValue&&)` copies
+   kind / numOutputInfos / signature / valueData unconditionally and touches `stringValues` only when
+   `rhs.kindHasStringList()`; so an object that was assigned to may still hold the strings of an earlier value of
+   another kind ([bv_strs] non-empty although [has_strs] is false). [toData] and the accessors read only the fields of
+   the current kind ([enc_value], [view]).
+   The destination's old output infos are only `delete[]`d, never read: they do not appear in the result. The explicit
+   copy constructor rebuilds the list from `getValues()`, which for NUL-free strings is the same list. *)
+
+Definition fresh_object : bvalue := mkBV VInvalid 0 [] [].
+
+Definition move_assign (dst src : bvalue) : bvalue :=
+  mkBV (bv_kind src) (bv_sig src) (bv_infos src)
+       (if has_strs (bv_kind src) then bv_strs src else bv_strs dst).
+
+Definition move_construct (src : bvalue) : bvalue := move_assign fresh_object src.
+Definition copy_construct (src : bvalue) : bvalue := move_assign fresh_object src.
+
+(* what the accessors of the current kind can see *)
+Definition view (v : bvalue) : bvalue :=
+  mkBV (bv_kind v)
+       (if has_sig (bv_kind v) then bv_sig v else 0)
+       (if has_info (bv_kind v) then bv_infos v else [])
+       (if has_strs (bv_kind v) then bv_strs v else []).
+
+(* a history of re-use: the object successively receives every value of [vs] *)
+Definition assign_all (dst : bvalue) (vs : list bvalue) : bvalue := fold_left move_assign vs dst.
+
 (* ---------- BuildKey ---------- *)
 
 Inductive bkey :=
